@@ -438,6 +438,12 @@ OPTIONS:
 		intf.TimestampResolution = 6
 	}
 
+	// a resolution finer than 2^-63 or 10^-19 does not fit the 64 bit divisor (it would be zero or wrap)
+	if (intf.TimestampResolution.Binary() && intf.TimestampResolution.Exponent() > 63) ||
+		(!intf.TimestampResolution.Binary() && intf.TimestampResolution.Exponent() > 19) {
+		return fmt.Errorf("unsupported timestamp resolution %#x", uint8(intf.TimestampResolution))
+	}
+
 	//parse options
 	if intf.TimestampResolution.Binary() {
 		//negative power of 2
